@@ -122,13 +122,21 @@ type Refused struct {
 // MintLoose is Mint, except that transactions refused by flow.Adopt are skipped and returned.
 // It also returns the receipts of the adopted transactions.
 func (n *Net) MintLoose(parentID thor.Bytes32, who int, com bool, minTime uint64, txs ...*tx.Transaction) (*block.Block, tx.Receipts, []Refused, error) {
+	return n.MintLooseTo(parentID, who, nil, com, minTime, txs...)
+}
+
+// MintLooseTo is MintLoose with the packer's beneficiary option set to an arbitrary address (nil: the validator itself).
+func (n *Net) MintLooseTo(parentID thor.Bytes32, who int, beneficiary *thor.Address, com bool, minTime uint64, txs ...*tx.Transaction) (*block.Block, tx.Receipts, []Refused, error) {
 	g := n.God
 	parent, err := g.Repo.GetBlockSummary(parentID)
 	if err != nil {
 		return nil, nil, nil, fmt.Errorf("god does not know parent: %w", err)
 	}
 	acc := n.Devs[who]
-	p := packer.New(g.Repo, g.Stater, acc.Address, &acc.Address, n.FC, 0)
+	if beneficiary == nil {
+		beneficiary = &acc.Address
+	}
+	p := packer.New(g.Repo, g.Stater, acc.Address, beneficiary, n.FC, 0)
 	if minTime == 0 {
 		minTime = parent.Header.Timestamp() + thor.BlockInterval()
 	}
